@@ -58,6 +58,29 @@ def hx(v):
 
 
 # ---------------------------------------------------------------------------
+# one evaluation; at most three reports per key and unit, so that a defect which shows on thousands of
+# operands (the worker keeps 50 violations per unit) cannot crowd out a different one
+# ---------------------------------------------------------------------------
+_REP = {'viol': None, 'n': {}}
+
+
+def chk(ctx, cond, key, **detail):
+    ctx.ok()
+    if cond:
+        return True
+    if _REP['viol'] is not ctx.viol:
+        _REP['viol'] = ctx.viol
+        _REP['n'] = {}
+    c = _REP['n'].get(key, 0)
+    _REP['n'][key] = c + 1
+    if c < 3:
+        ctx.violation(key, **detail)
+    else:
+        ctx.stat('repeats_not_listed:' + key)
+    return False
+
+
+# ---------------------------------------------------------------------------
 # operand pools
 # ---------------------------------------------------------------------------
 def _limb_patterns():
@@ -136,9 +159,9 @@ def judge_mont(ctx, fname, raw, want_vals, **detail):
         ctx.ok()
         return True
     if all(g == w or (w == 0 and g == P) for g, w in zip(got, want)):
-        ctx.check(False, 'noncanonical-zero:' + fname, what='a zero coefficient is returned as p', got=hx(got), want=hx(want), **detail)
+        chk(ctx, False, 'noncanonical-zero:' + fname, what='a zero coefficient is returned as p', got=hx(got), want=hx(want), **detail)
     else:
-        ctx.check(False, fname + ':wrong-value', got=hx(got), want=hx(want), **detail)
+        chk(ctx, False, fname + ':wrong-value', got=hx(got), want=hx(want), **detail)
     return False
 
 
@@ -148,9 +171,9 @@ def judge_raw(ctx, fname, raw, want, m, **detail):
         ctx.ok()
         return True
     if want == 0 and got == m:
-        ctx.check(False, 'noncanonical-zero:' + fname, what='zero is returned as the modulus', got=hx(got), want=hx(want), **detail)
+        chk(ctx, False, 'noncanonical-zero:' + fname, what='zero is returned as the modulus', got=hx(got), want=hx(want), **detail)
     else:
-        ctx.check(False, fname + ':wrong-value', got=hx(got), want=hx(want), **detail)
+        chk(ctx, False, fname + ':wrong-value', got=hx(got), want=hx(want), **detail)
     return False
 
 
@@ -167,45 +190,45 @@ def u_z256(ctx, u):
         a_.write(LB(a))
         b_.write(LB(b))
         c = lib.sm9_z256_add(r_, a_, b_)
-        ctx.check(c == (a + b) >> 256 and UL(r_.raw()) == (a + b) % R256, 'z256_add:wrong-value', a=hx(a), b=hx(b),
+        chk(ctx, c == (a + b) >> 256 and UL(r_.raw()) == (a + b) % R256, 'z256_add:wrong-value', a=hx(a), b=hx(b),
                   carry=c, got=hx(UL(r_.raw())))
         c = lib.sm9_z256_sub(r_, a_, b_)
-        ctx.check(c == (1 if a < b else 0) and UL(r_.raw()) == (a - b) % R256, 'z256_sub:wrong-value', a=hx(a), b=hx(b),
+        chk(ctx, c == (1 if a < b else 0) and UL(r_.raw()) == (a - b) % R256, 'z256_sub:wrong-value', a=hx(a), b=hx(b),
                   borrow=c, got=hx(UL(r_.raw())))
         lib.sm9_z256_mul(r8, a_, b_)
-        ctx.check(int.from_bytes(r8.raw(), 'little') == a * b, 'z256_mul:wrong-value', a=hx(a), b=hx(b),
+        chk(ctx, int.from_bytes(r8.raw(), 'little') == a * b, 'z256_mul:wrong-value', a=hx(a), b=hx(b),
                   got=hx(int.from_bytes(r8.raw(), 'little')))
         c = lib.sm9_z256_cmp(a_, b_)
-        ctx.check(c == (a > b) - (a < b), 'z256_cmp:wrong-value', a=hx(a), b=hx(b), got=c)
+        chk(ctx, c == (a > b) - (a < b), 'z256_cmp:wrong-value', a=hx(a), b=hx(b), got=c)
         c = lib.sm9_z256_equ(a_, b_)
-        ctx.check(c == (1 if a == b else 0), 'z256_equ:wrong-value', a=hx(a), b=hx(b), got=c)
+        chk(ctx, c == (1 if a == b else 0), 'z256_equ:wrong-value', a=hx(a), b=hx(b), got=c)
         ctx.nontrivial('z256', a, b)
     ctx.begin(['z256', 'unary'])
     bits = ctx.buf(256)
     by = ctx.buf(32)
     for a in pool + [rnd256(rng) for _ in range(u['n'] // 4)]:
         a_.write(LB(a))
-        ctx.check(lib.sm9_z256_is_zero(a_) == (1 if a == 0 else 0), 'z256_is_zero:wrong-value', a=hx(a))
-        ctx.check(lib.sm9_z256_equ(a_, a_) == 1, 'z256_equ:wrong-value', a=hx(a), b=hx(a))
+        chk(ctx, lib.sm9_z256_is_zero(a_) == (1 if a == 0 else 0), 'z256_is_zero:wrong-value', a=hx(a))
+        chk(ctx, lib.sm9_z256_equ(a_, a_) == 1, 'z256_equ:wrong-value', a=hx(a), b=hx(a))
         lib.sm9_z256_to_bytes(a_, by)
-        ctx.check(by.raw() == a.to_bytes(32, 'big'), 'z256_to_bytes:wrong-value', a=hx(a))
+        chk(ctx, by.raw() == a.to_bytes(32, 'big'), 'z256_to_bytes:wrong-value', a=hx(a))
         lib.sm9_z256_from_bytes(r_, by)
-        ctx.check(UL(r_.raw()) == a, 'z256_from_bytes:wrong-value', a=hx(a))
+        chk(ctx, UL(r_.raw()) == a, 'z256_from_bytes:wrong-value', a=hx(a))
         lib.sm9_z256_to_bits(a_, bits)
-        ctx.check(bits.raw() == format(a, '0256b').encode(), 'z256_to_bits:wrong-value', a=hx(a))
+        chk(ctx, bits.raw() == format(a, '0256b').encode(), 'z256_to_bits:wrong-value', a=hx(a))
         r_.write(LB(7))
         lib.sm9_z256_copy(r_, a_)
-        ctx.check(UL(r_.raw()) == a, 'z256_copy:wrong-value', a=hx(a))
+        chk(ctx, UL(r_.raw()) == a, 'z256_copy:wrong-value', a=hx(a))
         for mv in (0, 1):
             r_.write(LB(R256 - 1 - a))
             lib.sm9_z256_copy_conditional(r_, a_, mv)
-            ctx.check(UL(r_.raw()) == (a if mv else R256 - 1 - a), 'z256_copy_conditional:wrong-value', a=hx(a), move=mv)
+            chk(ctx, UL(r_.raw()) == (a if mv else R256 - 1 - a), 'z256_copy_conditional:wrong-value', a=hx(a), move=mv)
         ctx.nontrivial('z256-unary', a)
     lib.sm9_z256_set_one(r_)
-    ctx.check(UL(r_.raw()) == 1, 'z256_set_one:wrong-value')
+    chk(ctx, UL(r_.raw()) == 1, 'z256_set_one:wrong-value')
     lib.sm9_z256_set_zero(r_)
-    ctx.check(UL(r_.raw()) == 0, 'z256_set_zero:wrong-value')
-    ctx.check(UL(ctypes.string_at(lib.sm9_z256_order(), 32)) == N, 'z256_order:wrong-value')
+    chk(ctx, UL(r_.raw()) == 0, 'z256_set_zero:wrong-value')
+    chk(ctx, UL(ctypes.string_at(lib.sm9_z256_order(), 32)) == N, 'z256_order:wrong-value')
     ctx.sample({'kind': 'z256', 'pairs': len(pairs), 'pool': [hx(v) for v in pool[:6]]})
 
 
@@ -350,7 +373,7 @@ def u_fnhash(ctx, u):
         want = v % (N - 1) + 1
         if UL(r_.raw()) == want - 1:
             # the quotient estimate is one short and nothing corrects it: Ha just above a multiple of N-1
-            ctx.check(False, 'modn_from_hash:result-one-too-small', got=hx(want - 1), want=hx(want), ha=hx(v),
+            chk(ctx, False, 'modn_from_hash:result-one-too-small', got=hx(want - 1), want=hx(want), ha=hx(v),
                       ha_mod_N_minus_1=hx(v % (N - 1)))
         else:
             judge_raw(ctx, 'modn_from_hash', r_.raw(), want, N, ha=hx(v))
@@ -365,7 +388,7 @@ def u_fnhash(ctx, u):
         ib = ctx.inbuf(ident)
         for hid in (1, 2, 3, rng.randrange(256)):
             rc = lib.sm9_z256_hash1(r_, ib, n, hid)
-            ctx.check(rc == 1 and UL(r_.raw()) == R.H1(ident, hid), 'hash1:wrong-value', idlen=n, hid=hid,
+            chk(ctx, rc == 1 and UL(r_.raw()) == R.H1(ident, hid), 'hash1:wrong-value', idlen=n, hid=hid,
                       id=ident[:64].hex(), got=hx(UL(r_.raw())), want=hx(R.H1(ident, hid)))
             ctx.nontrivial('hash1', ident, hid)
         ib.free()
@@ -520,7 +543,7 @@ def u_fp2(ctx, u):
         raw = _call(ctx, lib.sm9_z256_fp2_mul_fp, 64, [ea, LB(mont(k))], al)
         judge_mont(ctx, 'fp2_mul_fp', raw, mem2(R.f2_mul_fp(a, k)), a=hx(a), k=hx(k), inplace=al)
         ba, bb = ctx.inbuf(ea), ctx.inbuf(eb)
-        ctx.check(lib.sm9_z256_fp2_equ(ba, bb) == (1 if a == b else 0), 'fp2_equ:wrong-value', **d)
+        chk(ctx, lib.sm9_z256_fp2_equ(ba, bb) == (1 if a == b else 0), 'fp2_equ:wrong-value', **d)
         ba.free()
         bb.free()
         ctx.nontrivial('fp2', a, b)
@@ -536,15 +559,15 @@ def u_fp2(ctx, u):
             raw = _call(ctx, lib.sm9_z256_fp2_inv, 64, [ea], al)
             judge_mont(ctx, 'fp2_inv', raw, mem2(R.f2_inv(a)), **d)
         ba = ctx.inbuf(ea)
-        ctx.check(lib.sm9_z256_fp2_is_zero(ba) == (1 if a == (0, 0) else 0), 'fp2_is_zero:wrong-value', **d)
-        ctx.check(lib.sm9_z256_fp2_is_one(ba) == (1 if a == (1, 0) else 0), 'fp2_is_one:wrong-value', **d)
-        ctx.check(lib.sm9_z256_fp2_equ(ba, ba) == 1, 'fp2_equ:wrong-value', a=hx(a), b=hx(a))
+        chk(ctx, lib.sm9_z256_fp2_is_zero(ba) == (1 if a == (0, 0) else 0), 'fp2_is_zero:wrong-value', **d)
+        chk(ctx, lib.sm9_z256_fp2_is_one(ba) == (1 if a == (1, 0) else 0), 'fp2_is_one:wrong-value', **d)
+        chk(ctx, lib.sm9_z256_fp2_equ(ba, ba) == 1, 'fp2_equ:wrong-value', a=hx(a), b=hx(a))
         by = ctx.buf(64)
         lib.sm9_z256_fp2_to_bytes(ba, by)
-        ctx.check(by.raw() == R.f2_to_bytes(a), 'fp2_to_bytes:wrong-value', **d)
+        chk(ctx, by.raw() == R.f2_to_bytes(a), 'fp2_to_bytes:wrong-value', **d)
         back = ctx.buf(64)
         rc = lib.sm9_z256_fp2_from_bytes(back, by)
-        ctx.check(rc == 1 and back.raw() == ea, 'fp2_from_bytes:wrong-value', ret=rc, **d)
+        chk(ctx, rc == 1 and back.raw() == ea, 'fp2_from_bytes:wrong-value', ret=rc, **d)
         for x in (ba, by, back):
             x.free()
         ctx.nontrivial('fp2-unary', a)
@@ -554,7 +577,7 @@ def u_fp2(ctx, u):
         by = ctx.inbuf(hi.to_bytes(32, 'big') + lo.to_bytes(32, 'big'))
         back = ctx.buf(64)
         rc = lib.sm9_z256_fp2_from_bytes(back, by)
-        ctx.check((rc == 1) == ok, 'fp2_from_bytes:range-decision', a1=hx(hi), a0=hx(lo), ret=rc)
+        chk(ctx, (rc == 1) == ok, 'fp2_from_bytes:range-decision', a1=hx(hi), a0=hx(lo), ret=rc)
         ctx.nontrivial('fp2-from-bytes-range', hi, lo)
         by.free()
         back.free()
@@ -605,7 +628,7 @@ def u_fp4(ctx, u):
         raw = _call(ctx, lib.sm9_z256_fp4_mul_fp2, 128, [ea, enc_vals(mem2(b[1]))], al)
         judge_mont(ctx, 'fp4_mul_fp2', raw, mem4(R.f4_mul_fp2(a, b[1])), a=hx(a), b=hx(b[1]), inplace=al)
         ba, bb = ctx.inbuf(ea), ctx.inbuf(eb)
-        ctx.check(lib.sm9_z256_fp4_equ(ba, bb) == (1 if a == b else 0), 'fp4_equ:wrong-value', **d)
+        chk(ctx, lib.sm9_z256_fp4_equ(ba, bb) == (1 if a == b else 0), 'fp4_equ:wrong-value', **d)
         ba.free()
         bb.free()
         ctx.nontrivial('fp4', a, b)
@@ -621,13 +644,13 @@ def u_fp4(ctx, u):
             raw = _call(ctx, lib.sm9_z256_fp4_inv, 128, [ea], al)
             judge_mont(ctx, 'fp4_inv', raw, mem4(R.f4_inv(a)), **d)
         ba = ctx.inbuf(ea)
-        ctx.check(lib.sm9_z256_fp4_is_zero(ba) == (1 if a == R.F4_ZERO else 0), 'fp4_is_zero:wrong-value', **d)
+        chk(ctx, lib.sm9_z256_fp4_is_zero(ba) == (1 if a == R.F4_ZERO else 0), 'fp4_is_zero:wrong-value', **d)
         by = ctx.buf(128)
         lib.sm9_z256_fp4_to_bytes(ba, by)
-        ctx.check(by.raw() == R.f4_to_bytes(a), 'fp4_to_bytes:wrong-value', **d)
+        chk(ctx, by.raw() == R.f4_to_bytes(a), 'fp4_to_bytes:wrong-value', **d)
         back = ctx.buf(128)
         rc = lib.sm9_z256_fp4_from_bytes(back, by)
-        ctx.check(rc == 1 and back.raw() == ea, 'fp4_from_bytes:wrong-value', ret=rc, **d)
+        chk(ctx, rc == 1 and back.raw() == ea, 'fp4_from_bytes:wrong-value', ret=rc, **d)
         for x in (ba, by, back):
             x.free()
         ctx.nontrivial('fp4-unary', a)
@@ -672,7 +695,7 @@ def u_fp12(ctx, u):
             raw = _call(ctx, getattr(lib, 'sm9_z256_fp12_' + name), 384, [ea, eb], al)
             judge_mont(ctx, 'fp12_' + name, raw, mem12(f(a, b)), **d)
         ba, bb = ctx.inbuf(ea), ctx.inbuf(eb)
-        ctx.check(lib.sm9_z256_fp12_equ(ba, bb) == (1 if a == b else 0), 'fp12_equ:wrong-value', **d)
+        chk(ctx, lib.sm9_z256_fp12_equ(ba, bb) == (1 if a == b else 0), 'fp12_equ:wrong-value', **d)
         ba.free()
         bb.free()
         # sparse line multiplication: a * (l0 + l1 w^2 + l2 w^3)
@@ -697,13 +720,13 @@ def u_fp12(ctx, u):
         ba = ctx.inbuf(ea)
         by = ctx.buf(384)
         lib.sm9_z256_fp12_to_bytes(ba, by)
-        ctx.check(by.raw() == R.f12_to_bytes(a), 'fp12_to_bytes:wrong-value', **d)
+        chk(ctx, by.raw() == R.f12_to_bytes(a), 'fp12_to_bytes:wrong-value', **d)
         back = ctx.buf(384)
         rc = lib.sm9_z256_fp12_from_bytes(back, by)
-        ctx.check(rc == 1 and back.raw() == ea, 'fp12_from_bytes:wrong-value', ret=rc, **d)
+        chk(ctx, rc == 1 and back.raw() == ea, 'fp12_from_bytes:wrong-value', ret=rc, **d)
         t = R.f12_to_tower(a)
         raw = _call(ctx, lib.sm9_z256_fp12_set, 384, [enc_vals(mem4(t[0])), enc_vals(mem4(t[1])), enc_vals(mem4(t[2]))], False)
-        ctx.check(raw == ea, 'fp12_set:wrong-value', **d)
+        chk(ctx, raw == ea, 'fp12_set:wrong-value', **d)
         for x in (ba, by, back):
             x.free()
         if idx % u.get('pow_every', 4) == 0:       # k < N-1 is asserted by the library
@@ -718,7 +741,7 @@ def u_fp12(ctx, u):
     if u['part'] == 0:
         r2 = ctx.buf(384)
         lib.sm9_z256_fp12_inv(r2, r)
-        ctx.check(lib.sm9_z256_fp12_equ(r2, r) == 1, 'noncanonical-zero:fp12_equ(fp12_inv(1),1)',
+        chk(ctx, lib.sm9_z256_fp12_equ(r2, r) == 1, 'noncanonical-zero:fp12_equ(fp12_inv(1),1)',
                   what='the inverse of one does not compare equal to one', got=hx([UL(r2.raw(), 32 * i) for i in range(12)]))
         ctx.nontrivial('fp12-inv-one-equ')
         r2.free()
@@ -748,11 +771,11 @@ def u_hex(ctx, u):
         hs = ('%064x' % a) if rng.random() < 0.5 else ('%064X' % a)
         hb = ctx.inbuf(hs.encode() + b'\0')
         rc = lib.sm9_z256_from_hex(r_, hb)
-        ctx.check(rc == 1 and UL(r_.raw()) == a, 'z256_from_hex:wrong-value', a=hx(a), ret=rc)
-        ctx.check(lib.sm9_z256_equ_hex(r_, hb) == 1, 'z256_equ_hex:wrong-value', a=hx(a))
+        chk(ctx, rc == 1 and UL(r_.raw()) == a, 'z256_from_hex:wrong-value', a=hx(a), ret=rc)
+        chk(ctx, lib.sm9_z256_equ_hex(r_, hb) == 1, 'z256_equ_hex:wrong-value', a=hx(a))
         out = ctx.buf(65, fill=0xA5)
         lib.sm9_z256_to_hex(r_, out)
-        ctx.check(out.raw(64) == ('%064x' % a).encode(), 'z256_to_hex:wrong-value', a=hx(a))
+        chk(ctx, out.raw(64) == ('%064x' % a).encode(), 'z256_to_hex:wrong-value', a=hx(a))
         if out.raw()[64] != 0xA5:
             ctx.stat('info_to_hex_writes_nul_past_documented_size')
         ctx.nontrivial('hex', a)
@@ -764,10 +787,10 @@ def u_hex(ctx, u):
         hb = ctx.inbuf(txt + b'\0')
         r2 = ctx.buf(64)
         rc = lib.sm9_z256_fp2_from_hex(r2, hb)
-        ctx.check(rc == 1 and r2.raw() == enc_vals(mem2(a)), 'fp2_from_hex:wrong-value', a=hx(a), ret=rc)
+        chk(ctx, rc == 1 and r2.raw() == enc_vals(mem2(a)), 'fp2_from_hex:wrong-value', a=hx(a), ret=rc)
         out = ctx.buf(130, fill=0xA5)
         lib.sm9_z256_fp2_to_hex(r2, out)
-        ctx.check(out.raw(129) == txt, 'fp2_to_hex:wrong-value', a=hx(a))
+        chk(ctx, out.raw(129) == txt, 'fp2_to_hex:wrong-value', a=hx(a))
         ctx.nontrivial('hex2', a)
         for x in (hb, r2, out):
             x.free()
@@ -777,10 +800,10 @@ def u_hex(ctx, u):
         hb = ctx.inbuf(txt + b'\0')
         r12 = ctx.buf(384)
         rc = lib.sm9_z256_fp12_from_hex(r12, hb)
-        ctx.check(rc == 1 and r12.raw() == enc_vals(mem12(b)), 'fp12_from_hex:wrong-value', a=hx(b), ret=rc)
+        chk(ctx, rc == 1 and r12.raw() == enc_vals(mem12(b)), 'fp12_from_hex:wrong-value', a=hx(b), ret=rc)
         out = ctx.buf(780, fill=0xA5)
         lib.sm9_z256_fp12_to_hex(r12, out)
-        ctx.check(out.raw(779) == txt, 'fp12_to_hex:wrong-value', a=hx(b))
+        chk(ctx, out.raw(779) == txt, 'fp12_to_hex:wrong-value', a=hx(b))
         ctx.nontrivial('hex12', b)
         for x in (hb, r12, out):
             x.free()
@@ -849,7 +872,7 @@ def judge_pt(ctx, fname, got, want, **detail):
         ctx.ok()
         return True
     cls = 'infinity-instead-of-point' if got is None else 'point-instead-of-infinity' if want is None else 'wrong-point'
-    ctx.check(False, fname + ':' + cls, got=hx(got), want=hx(want), **detail)
+    chk(ctx, False, fname + ':' + cls, got=hx(got), want=hx(want), **detail)
     return False
 
 
@@ -887,7 +910,7 @@ def u_g1(ctx, u):
         raw = _call(ctx, lib.sm9_z256_point_sub, SZ, [ea, eb], al)
         judge_pt(ctx, 'point_sub', dec_g1(raw), R.g1_add(A, R.g1_neg(B)), **d)
         ba, bb = ctx.inbuf(ea), ctx.inbuf(eb)
-        ctx.check(lib.sm9_z256_point_equ(ba, bb) == (1 if A == B else 0), 'point_equ:wrong-value', **d)
+        chk(ctx, lib.sm9_z256_point_equ(ba, bb) == (1 if A == B else 0), 'point_equ:wrong-value', **d)
         ba.free()
         bb.free()
         # mixed addition: second operand affine; P != +-Q is the documented shape of its use
@@ -911,7 +934,7 @@ def u_g1(ctx, u):
             raw = _call(ctx, lib.sm9_z256_point_add, SZ, [inf, inf], False)
             judge_pt(ctx, 'point_add:O+O', dec_g1(raw), None)
             b = ctx.inbuf(inf)
-            ctx.check(lib.sm9_z256_point_is_at_infinity(b) == 1, 'point_is_at_infinity:wrong-value', which='O')
+            chk(ctx, lib.sm9_z256_point_is_at_infinity(b) == 1, 'point_is_at_infinity:wrong-value', which='O')
             b.free()
         ctx.nontrivial('g1-inf', ka)
     ctx.begin(['g1', 'unary'])
@@ -925,21 +948,21 @@ def u_g1(ctx, u):
         raw = _call(ctx, lib.sm9_z256_point_neg, SZ, [ea], al)
         judge_pt(ctx, 'point_neg', dec_g1(raw), R.g1_neg(A), **d)
         ba = ctx.inbuf(ea)
-        ctx.check(lib.sm9_z256_point_is_on_curve(ba) == 1, 'point_is_on_curve:rejects-curve-point', **d)
-        ctx.check(lib.sm9_z256_point_is_at_infinity(ba) == 0, 'point_is_at_infinity:wrong-value', **d)
+        chk(ctx, lib.sm9_z256_point_is_on_curve(ba) == 1, 'point_is_on_curve:rejects-curve-point', **d)
+        chk(ctx, lib.sm9_z256_point_is_at_infinity(ba) == 0, 'point_is_at_infinity:wrong-value', **d)
         x_, y_ = ctx.buf(32), ctx.buf(32)
         lib.sm9_z256_point_get_xy(ba, x_, y_)
-        ctx.check((UL(x_.raw()), UL(y_.raw())) == A, 'point_get_xy:wrong-value', got=hx([UL(x_.raw()), UL(y_.raw())]),
+        chk(ctx, (UL(x_.raw()), UL(y_.raw())) == A, 'point_get_xy:wrong-value', got=hx([UL(x_.raw()), UL(y_.raw())]),
                   want=hx(A), **d)
         oc = ctx.buf(65)
         rc = lib.sm9_z256_point_to_uncompressed_octets(ba, oc)
-        ctx.check(rc == 1 and oc.raw() == R.g1_bytes(A), 'point_to_uncompressed_octets:wrong-value', **d)
+        chk(ctx, rc == 1 and oc.raw() == R.g1_bytes(A), 'point_to_uncompressed_octets:wrong-value', **d)
         back = ctx.buf(SZ)
         rc = lib.sm9_z256_point_from_uncompressed_octets(back, oc)
-        ctx.check(rc == 1 and dec_g1(back.raw()) == A, 'point_from_uncompressed_octets:wrong-value', ret=rc, **d)
+        chk(ctx, rc == 1 and dec_g1(back.raw()) == A, 'point_from_uncompressed_octets:wrong-value', ret=rc, **d)
         af = ctx.buf(ctx.L.get('sizeof_SM9_Z256_AFFINE_POINT', 64))
         lib.sm9_z256_point_to_affine(af, ba)
-        ctx.check(af.raw() == LB(mont(A[0])) + LB(mont(A[1])), 'point_to_affine:wrong-value', **d)
+        chk(ctx, af.raw() == LB(mont(A[0])) + LB(mont(A[1])), 'point_to_affine:wrong-value', **d)
         raw = _call(ctx, lib.sm9_z256_point_copy_affine, SZ, [af.raw()], False)
         judge_pt(ctx, 'point_copy_affine', dec_g1(raw), A, **d)
         # points off the curve
@@ -947,11 +970,11 @@ def u_g1(ctx, u):
             if R.g1_on_curve(bad):
                 continue
             bb = ctx.inbuf(enc_g1(bad, za))
-            ctx.check(lib.sm9_z256_point_is_on_curve(bb) == 0, 'point_is_on_curve:accepts-off-curve', pt=hx(bad), za=hx(za))
+            chk(ctx, lib.sm9_z256_point_is_on_curve(bb) == 0, 'point_is_on_curve:accepts-off-curve', pt=hx(bad), za=hx(za))
             bb.free()
             ob = ctx.inbuf(R.g1_bytes(bad))
             rc = lib.sm9_z256_point_from_uncompressed_octets(back, ob)
-            ctx.check(rc != 1, 'point_from_uncompressed_octets:accepts-off-curve', pt=hx(bad), ret=rc)
+            chk(ctx, rc != 1, 'point_from_uncompressed_octets:accepts-off-curve', pt=hx(bad), ret=rc)
             ob.free()
         for x in (ba, x_, y_, oc, back, af):
             x.free()
@@ -974,12 +997,12 @@ def u_g1(ctx, u):
     for octs, why in inval:
         ob = ctx.inbuf(octs)
         rc = lib.sm9_z256_point_from_uncompressed_octets(back, ob)
-        ctx.check(rc != 1, 'point_from_uncompressed_octets:accepts-invalid', why=why, ret=rc)
+        chk(ctx, rc != 1, 'point_from_uncompressed_octets:accepts-invalid', why=why, ret=rc)
         ctx.nontrivial('g1-octets-invalid', why)
         ob.free()
     raw = _call(ctx, lambda o: lib.sm9_z256_point_set_infinity(o), SZ, [], False)
     judge_pt(ctx, 'point_set_infinity', dec_g1(raw), None)
-    ctx.check(dec_g1(ctypes.string_at(lib.sm9_z256_generator(), 96)) == R.P1, 'generator:wrong-value')
+    chk(ctx, dec_g1(ctypes.string_at(lib.sm9_z256_generator(), 96)) == R.P1, 'generator:wrong-value')
     ctx.sample({'kind': 'g1', 'cases': len(cases), 'points': len(pts)})
 
 
@@ -1012,7 +1035,7 @@ def u_g2(ctx, u):
         raw = _call(ctx, lib.sm9_z256_twist_point_add, SZ, [ea, enc_g2(B)], al)
         judge_pt(ctx, 'twist_point_add', dec_g2(raw), R.g2_add(A, B), **d)
         ba, bb = ctx.inbuf(ea), ctx.inbuf(eb)
-        ctx.check(lib.sm9_z256_twist_point_equ(ba, bb) == (1 if A == B else 0), 'twist_point_equ:wrong-value', **d)
+        chk(ctx, lib.sm9_z256_twist_point_equ(ba, bb) == (1 if A == B else 0), 'twist_point_equ:wrong-value', **d)
         ba.free()
         bb.free()
         ctx.nontrivial('g2-binary', ka, kb, za, zb)
@@ -1045,26 +1068,26 @@ def u_g2(ctx, u):
         raw = _call(ctx, lib.sm9_z256_twist_point_neg_pi2, SZ, [ea], False)
         judge_pt(ctx, 'twist_point_neg_pi2', dec_g2(raw), R.g2_neg(R.g2_frob(A, 2)), **d)
         ba = ctx.inbuf(ea)
-        ctx.check(lib.sm9_z256_twist_point_is_on_curve(ba) == 1, 'twist_point_is_on_curve:rejects-curve-point', **d)
-        ctx.check(lib.sm9_z256_twist_point_is_at_infinity(ba) == 0, 'twist_point_is_at_infinity:wrong-value', **d)
+        chk(ctx, lib.sm9_z256_twist_point_is_on_curve(ba) == 1, 'twist_point_is_on_curve:rejects-curve-point', **d)
+        chk(ctx, lib.sm9_z256_twist_point_is_at_infinity(ba) == 0, 'twist_point_is_at_infinity:wrong-value', **d)
         x_, y_ = ctx.buf(64), ctx.buf(64)
         lib.sm9_z256_twist_point_get_xy(ba, x_, y_)     # returns Montgomery residues
-        ctx.check((dec2(x_.raw()), dec2(y_.raw())) == A, 'twist_point_get_xy:wrong-value', **d)
+        chk(ctx, (dec2(x_.raw()), dec2(y_.raw())) == A, 'twist_point_get_xy:wrong-value', **d)
         oc = ctx.buf(129)
         rc = lib.sm9_z256_twist_point_to_uncompressed_octets(ba, oc)
-        ctx.check(rc == 1 and oc.raw() == R.g2_bytes(A), 'twist_point_to_uncompressed_octets:wrong-value', **d)
+        chk(ctx, rc == 1 and oc.raw() == R.g2_bytes(A), 'twist_point_to_uncompressed_octets:wrong-value', **d)
         back = ctx.buf(SZ)
         rc = lib.sm9_z256_twist_point_from_uncompressed_octets(back, oc)
-        ctx.check(rc == 1 and dec_g2(back.raw()) == A, 'twist_point_from_uncompressed_octets:wrong-value', ret=rc, **d)
+        chk(ctx, rc == 1 and dec_g2(back.raw()) == A, 'twist_point_from_uncompressed_octets:wrong-value', ret=rc, **d)
         for bad in ((A[0], R.f2_add(A[1], (1, 0))), (R.f2_add(A[0], (0, 1)), A[1]), (A[1], A[0])):
             if R.g2_on_curve(bad):
                 continue
             bb = ctx.inbuf(enc_g2(bad, za))
-            ctx.check(lib.sm9_z256_twist_point_is_on_curve(bb) == 0, 'twist_point_is_on_curve:accepts-off-curve', pt=hx(bad))
+            chk(ctx, lib.sm9_z256_twist_point_is_on_curve(bb) == 0, 'twist_point_is_on_curve:accepts-off-curve', pt=hx(bad))
             bb.free()
             ob = ctx.inbuf(R.g2_bytes(bad))
             rc = lib.sm9_z256_twist_point_from_uncompressed_octets(back, ob)
-            ctx.check(rc != 1, 'twist_point_from_uncompressed_octets:accepts-off-curve', pt=hx(bad), ret=rc)
+            chk(ctx, rc != 1, 'twist_point_from_uncompressed_octets:accepts-off-curve', pt=hx(bad), ret=rc)
             ob.free()
         for x in (ba, x_, y_, oc, back):
             x.free()
@@ -1076,12 +1099,12 @@ def u_g2(ctx, u):
                       (b'\x04' + P.to_bytes(32, 'big') + good[33:], 'x1=p')):
         ob = ctx.inbuf(octs)
         rc = lib.sm9_z256_twist_point_from_uncompressed_octets(back, ob)
-        ctx.check(rc != 1, 'twist_point_from_uncompressed_octets:accepts-invalid', why=why, ret=rc)
+        chk(ctx, rc != 1, 'twist_point_from_uncompressed_octets:accepts-invalid', why=why, ret=rc)
         ctx.nontrivial('g2-octets-invalid', why)
         ob.free()
     raw = _call(ctx, lambda o: lib.sm9_z256_twist_point_set_infinity(o), SZ, [], False)
     judge_pt(ctx, 'twist_point_set_infinity', dec_g2(raw), None)
-    ctx.check(dec_g2(ctypes.string_at(lib.sm9_z256_twist_generator(), 192)) == R.P2, 'twist_generator:wrong-value')
+    chk(ctx, dec_g2(ctypes.string_at(lib.sm9_z256_twist_generator(), 192)) == R.P2, 'twist_generator:wrong-value')
     ctx.sample({'kind': 'g2', 'cases': len(cases), 'points': len(pts)})
 
 
@@ -1233,8 +1256,8 @@ def u_pairing(ctx, u):
     ctx.begin(['pairing', 'generators'])
     lib.sm9_z256_pairing(out, lib.sm9_z256_twist_generator(), lib.sm9_z256_generator())
     g = dec12(out.raw())
-    ctx.check(g != R.F12_ONE, 'pairing:degenerate', what='e(P1,P2) == 1')
-    ctx.check(R.f12_pow(g, N) == R.F12_ONE, 'pairing:order', what='e(P1,P2)^N != 1')
+    chk(ctx, g != R.F12_ONE, 'pairing:degenerate', what='e(P1,P2) == 1')
+    chk(ctx, R.f12_pow(g, N) == R.F12_ONE, 'pairing:order', what='e(P1,P2)^N != 1')
     judge_mont(ctx, 'pairing:value', out.raw(), mem12(R.pairing(R.P1, R.P2)), a='1', b='1')
     ctx.nontrivial('pairing-gen')
     edge = pair_edge()
@@ -1252,21 +1275,21 @@ def u_pairing(ctx, u):
         ctx.begin(['pairing', d])
         raw = lib_pairing(ctx, Pa, zP, Qb, zQ)
         e1 = dec12(raw)
-        ctx.check(e1 == R.f12_pow(g, a * b % N), 'pairing:bilinear', what='e([a]P1,[b]P2) != e(P1,P2)^(ab)', **d)
-        ctx.check(e1 != R.F12_ONE, 'pairing:degenerate', **d)
+        chk(ctx, e1 == R.f12_pow(g, a * b % N), 'pairing:bilinear', what='e([a]P1,[b]P2) != e(P1,P2)^(ab)', **d)
+        chk(ctx, e1 != R.F12_ONE, 'pairing:degenerate', **d)
         ctx.nontrivial('pairing', a, b, zP, zQ)
         if idx % u.get('direct_every', 3) == 0:
             judge_mont(ctx, 'pairing:value', raw, mem12(R.pairing(Pa, Qb)), **d)
-            ctx.check(R.f12_pow(e1, N) == R.F12_ONE, 'pairing:order', **d)
+            chk(ctx, R.f12_pow(e1, N) == R.F12_ONE, 'pairing:order', **d)
         if idx % u.get('add_every', 4) == 0:
             a2, b2 = rng.randrange(1, N), rng.randrange(1, N)
             if (a + a2) % N and (b + b2) % N:
                 e2 = dec12(lib_pairing(ctx, R.g1_mul(a2, R.P1), rz(rng, cp), Qb, zQ))
                 e3 = dec12(lib_pairing(ctx, R.g1_add(Pa, R.g1_mul(a2, R.P1)), rz(rng, cp), Qb, zQ))
-                ctx.check(e3 == R.f12_mul(e1, e2), 'pairing:additive-in-G1', a2=hx(a2), **d)
+                chk(ctx, e3 == R.f12_mul(e1, e2), 'pairing:additive-in-G1', a2=hx(a2), **d)
                 e4 = dec12(lib_pairing(ctx, Pa, zP, R.g2_mul(b2, R.P2), rz2(rng, cp)))
                 e5 = dec12(lib_pairing(ctx, Pa, zP, R.g2_add(Qb, R.g2_mul(b2, R.P2)), rz2(rng, cp)))
-                ctx.check(e5 == R.f12_mul(e1, e4), 'pairing:additive-in-G2', b2=hx(b2), **d)
+                chk(ctx, e5 == R.f12_mul(e1, e4), 'pairing:additive-in-G2', b2=hx(b2), **d)
                 ctx.nontrivial('pairing-additive', a, b, a2, b2)
     ctx.sample({'kind': 'pairing', 'part': u['part'], 'cases': len(cases)})
 
@@ -1392,10 +1415,14 @@ class SignMaster(object):
         push_entropy(ctx, LB(ks))
         ctx.begin(['sign_master_key_generate', hx(ks)])
         rc = ctx.lib.sm9_sign_master_key_generate(self.buf)
-        self.ppubs = R.sign_master_public(ks)
         raw = self.buf.raw()
         o1, o2 = L['off_SM9_SIGN_MASTER_KEY_Ppubs'], L['off_SM9_SIGN_MASTER_KEY_ks']
-        ctx.check(rc == 1 and UL(raw, o2) == ks and dec_g2(raw[o1:o1 + 192]) == self.ppubs,
+        got = UL(raw, o2)
+        if got != ks and 0 < got < N:      # how the scalar is derived from the entropy is not part of the property
+            ctx.stat('info_master_scalar_not_the_pushed_bytes')
+            self.ks = ks = got
+        self.ppubs = R.sign_master_public(ks)
+        chk(ctx, rc == 1 and got == ks and dec_g2(raw[o1:o1 + 192]) == self.ppubs,
                   'sign_master_key_generate:wrong-key', ks=hx(ks), ret=rc)
         ctx.nontrivial('sign-master', ks)
         self._g = None
@@ -1417,7 +1444,7 @@ def extract_sign(ctx, M, ident):
     ds = R.extract_sign_key(M.ks, ident)
     raw = key.raw()
     o1, o2 = L['off_SM9_SIGN_KEY_ds'], L['off_SM9_SIGN_KEY_Ppubs']
-    ctx.check(rc == 1 and dec_g1(raw[o1:o1 + 96]) == ds and dec_g2(raw[o2:o2 + 192]) == M.ppubs,
+    chk(ctx, rc == 1 and dec_g1(raw[o1:o1 + 96]) == ds and dec_g2(raw[o2:o2 + 192]) == M.ppubs,
               'sign_master_key_extract_key:wrong-key', ks=hx(M.ks), idlen=len(ident), id=ident[:64].hex(), ret=rc)
     ctx.nontrivial('sign-extract', M.ks, ident)
     return key, ds
@@ -1480,29 +1507,36 @@ def u_sign(ctx, u):
             d = {'ks': hx(ks), 'idlen': idlen, 'id': ident[:48].hex(), 'msglen': ml, 'msg': msg[:48].hex(), 'r': hx(r)}
             ctx.begin(['sign', d])
             rc, sig, left = lib_sign(ctx, key, msg, r, rng)
-            if not ctx.check(rc == 1 and left == 0, 'sign:failed', ret=rc, entropy_left=left, **d):
+            if not chk(ctx, rc == 1 and left == 0, 'sign:failed', ret=rc, entropy_left=left, **d):
                 continue
             want = R.sign(msg, ds, M.ppubs, r, g=M.g)
             got = parse_sig(sig)
-            if want is not None:
-                ctx.check(got == want, 'sign:signature-differs-from-model', got=hx(got), want=hx(want), sig=sig.hex(), **d)
+            if got == want and want is not None:
+                ctx.ok()
+                modelled = True
+            else:
+                # not the (h, S) of the pushed r: the property only requires a signature the standard's verifier accepts
+                modelled = False
+                ctx.stat('info_signature_not_reproduced_from_pushed_r')
+                chk(ctx, got is not None and R.verify(msg, got[0], got[1], ident, M.ppubs, g=M.g),
+                    'sign:signature-invalid-per-model', got=hx(got), want=hx(want), sig=sig.hex(), **d)
             ctx.nontrivial('sign', ks, ident, msg, r)
             ctx.begin(['verify', d])
             rc = lib_verify(ctx, M.buf, ident, msg, sig, rng)
-            ctx.check(rc == 1, 'verify:rejects-valid-signature', ret=rc, sig=sig.hex(), **d)
-            if mi == 0 and got is not None:
-                ctx.check(R.verify(msg, got[0], got[1], ident, M.ppubs, g=M.g), 'sign:model-rejects-library-signature',
+            chk(ctx, rc == 1, 'verify:rejects-valid-signature', ret=rc, sig=sig.hex(), **d)
+            if mi == 0 and got is not None and modelled:
+                chk(ctx, R.verify(msg, got[0], got[1], ident, M.ppubs, g=M.g), 'sign:signature-invalid-per-model',
                           sig=sig.hex(), **d)
             for oid in other_idents(rng, ident)[:u.get('nother', 2)]:
                 rc = lib_verify(ctx, M.buf, oid, msg, sig, rng)
-                ctx.check(rc != 1, 'verify:accepts-other-identity', ret=rc, other=oid[:48].hex(), otherlen=len(oid), **d)
+                chk(ctx, rc != 1, 'verify:accepts-other-identity', ret=rc, other=oid[:48].hex(), otherlen=len(oid), **d)
                 ctx.nontrivial('verify-other-id', ks, ident, oid, msg, r)
             om = bytearray(msg or b'\0')
             om[rng.randrange(len(om))] ^= 1 << rng.randrange(8)
             for m2 in (bytes(om), msg + b'\0'):
                 if m2 != msg:
                     rc = lib_verify(ctx, M.buf, ident, m2, sig, rng)
-                    ctx.check(rc != 1, 'verify:accepts-other-message', ret=rc, other=m2[:48].hex(), **d)
+                    chk(ctx, rc != 1, 'verify:accepts-other-message', ret=rc, other=m2[:48].hex(), **d)
                     ctx.nontrivial('verify-other-msg', ks, ident, m2, r)
             if flip_target is None or ml < len(flip_target[1]):
                 flip_target = (ident, msg, sig)
@@ -1522,7 +1556,7 @@ def u_sign(ctx, u):
                 ctx.stat('info_flip_skipped_h_eq_N-1')
                 continue
             rc = lib_verify(ctx, M.buf, ident, msg, bytes(s2), rng)
-            ctx.check(rc != 1, 'verify:accepts-altered-signature', ret=rc, bit=bit, sig=sig.hex(), ks=hx(ks),
+            chk(ctx, rc != 1, 'verify:accepts-altered-signature', ret=rc, bit=bit, sig=sig.hex(), ks=hx(ks),
                       id=ident[:48].hex(), msg=msg[:48].hex())
             ctx.stat('sigflip_reached_pairing' if rc == 0 else 'sigflip_refused_by_parser')
             ctx.nontrivial('verify-flip', sig, bit)
@@ -1542,12 +1576,14 @@ def _struct_sign(ctx, M, key, ds, ident, msg, rng, d):
     oh, oS = L['off_SM9_SIGNATURE_h'], L['off_SM9_SIGNATURE_S']
     got = (UL(raw, oh), dec_g1(raw[oS:oS + 96]))
     want = R.sign(msg, ds, M.ppubs, r, g=M.g)
-    if want is not None:
-        ctx.check(rc == 1 and got == want, 'do_sign:signature-differs-from-model', ret=rc, got=hx(got), want=hx(want),
-                  r2=hx(r), **d)
+    if rc == 1 and got == want:
+        ctx.ok()
+    else:
+        chk(ctx, rc == 1 and got[1] is not None and R.verify(msg, got[0], got[1], ident, M.ppubs, g=M.g),
+            'do_sign:signature-invalid-per-model', ret=rc, got=hx(got), want=hx(want), r2=hx(r), **d)
     ib = ctx.inbuf(ident)
     rc = lib.sm9_do_verify(M.buf, ib, len(ident), sc, sg)
-    ctx.check(rc == 1, 'do_verify:rejects-valid-signature', ret=rc, r2=hx(r), **d)
+    chk(ctx, rc == 1, 'do_verify:rejects-valid-signature', ret=rc, r2=hx(r), **d)
     ctx.nontrivial('do_sign', M.ks, ident, msg, r)
     # altered struct: bits of h (kept inside the domain h < N-1 that fp12_pow asserts) and of S
     for _ in range(6):
@@ -1564,7 +1600,7 @@ def _struct_sign(ctx, M, key, ds, ident, msg, rng, d):
             where = 'S'
         b2 = ctx.inbuf(bytes(s2))
         rc = lib.sm9_do_verify(M.buf, ib, len(ident), sc, b2)
-        ctx.check(rc != 1, 'do_verify:accepts-altered-signature', ret=rc, where=where, bit=bit, **d)
+        chk(ctx, rc != 1, 'do_verify:accepts-altered-signature', ret=rc, where=where, bit=bit, **d)
         ctx.nontrivial('do_verify-flip', bytes(s2))
         b2.free()
     for x in (sc, sg, ib):
@@ -1585,7 +1621,7 @@ def u_verify_h_edge(ctx, u):
         s2 = sig[:4] + hv.to_bytes(32, 'big') + sig[36:]
         ctx.begin(['verify-h-edge', name])
         rc = lib_verify(ctx, M.buf, ident, msg, s2, rng)
-        ctx.check(rc != 1, 'verify:accepts-forged-h', h=name, ret=rc)
+        chk(ctx, rc != 1, 'verify:accepts-forged-h', h=name, ret=rc)
         ctx.nontrivial('verify-h-edge', name)
     ctx.sample({'kind': 'verify_h_edge'})
 
@@ -1598,10 +1634,14 @@ class EncMaster(object):
         push_entropy(ctx, LB(ke))
         ctx.begin(['enc_master_key_generate', hx(ke)])
         rc = ctx.lib.sm9_enc_master_key_generate(self.buf)
-        self.ppube = R.enc_master_public(ke)
         raw = self.buf.raw()
         o1, o2 = L['off_SM9_ENC_MASTER_KEY_Ppube'], L['off_SM9_ENC_MASTER_KEY_ke']
-        ctx.check(rc == 1 and UL(raw, o2) == ke and dec_g1(raw[o1:o1 + 96]) == self.ppube,
+        got = UL(raw, o2)
+        if got != ke and 0 < got < N:
+            ctx.stat('info_master_scalar_not_the_pushed_bytes')
+            self.ke = ke = got
+        self.ppube = R.enc_master_public(ke)
+        chk(ctx, rc == 1 and got == ke and dec_g1(raw[o1:o1 + 96]) == self.ppube,
                   'enc_master_key_generate:wrong-key', ke=hx(ke), ret=rc)
         ctx.nontrivial('enc-master', ke)
         self._g = None
@@ -1624,7 +1664,7 @@ def extract_enc(ctx, M, ident, hid=R.HID_ENC):
     de = R.extract_enc_key(M.ke, ident, hid)
     raw = key.raw()
     o1, o2 = L['off_SM9_ENC_KEY_de'], L['off_SM9_ENC_KEY_Ppube']
-    ctx.check(rc == 1 and dec_g2(raw[o1:o1 + 192]) == de and dec_g1(raw[o2:o2 + 96]) == M.ppube,
+    chk(ctx, rc == 1 and dec_g2(raw[o1:o1 + 192]) == de and dec_g1(raw[o2:o2 + 96]) == M.ppube,
               ('enc' if hid == R.HID_ENC else 'exch') + '_master_key_extract_key:wrong-key', ke=hx(M.ke), idlen=len(ident),
               id=ident[:64].hex(), ret=rc)
     ctx.nontrivial('enc-extract', M.ke, ident, hid)
@@ -1669,28 +1709,34 @@ def u_enc(ctx, u):
             ct = out.raw(min(ol.value, out.n))
             mb.free()
             out.free()
-            if not ctx.check(rc == 1 and left == 0, 'encrypt:failed', ret=rc, entropy_left=left, **d):
+            if not chk(ctx, rc == 1 and left == 0, 'encrypt:failed', ret=rc, entropy_left=left, **d):
                 continue
             ctx.nontrivial('encrypt', ke, ident, msg, r)
             got = parse_ct(ct)
             c1, c2, c3 = R.encrypt(M.ppube, ident, msg, r, mac='hmac', g=M.g)
-            ctx.check(got is not None and got[0] == c1 and got[1] == c2, 'encrypt:ciphertext-differs-from-model',
-                      ct=ct.hex(), want_c1=hx(c1), want_c2=c2.hex(), **d)
+            if got is not None and got[0] == c1 and got[1] == c2:
+                ctx.ok()
+            else:
+                # not the ciphertext of the pushed r: it must at least decrypt under the standard's algorithm
+                ctx.stat('info_ciphertext_not_reproduced_from_pushed_r')
+                chk(ctx, got is not None and (R.decrypt(de, ident, got[0], got[1], got[2], mac='hmac') == msg or
+                                              R.decrypt(de, ident, got[0], got[1], got[2]) == msg),
+                    'encrypt:ciphertext-invalid-per-model', ct=ct.hex(), want_c1=hx(c1), want_c2=c2.hex(), **d)
             if got is not None:
                 ctx.stat('info_c3_is_hmac_sm3' if got[2] == c3 else 'info_c3_is_gmt0044_mac'
                          if got[2] == R.encrypt(M.ppube, ident, msg, r, g=M.g)[2] else 'info_c3_unrecognised')
             ctx.begin(['decrypt', d])
             rc, pt, olen = lib_decrypt(ctx, key, ident, ct, max(n, 1))
-            ctx.check(rc == 1 and olen == n and pt == msg, 'decrypt:wrong-result-for-valid-ciphertext', ret=rc, outlen=olen,
+            chk(ctx, rc == 1 and olen == n and pt == msg, 'decrypt:wrong-result-for-valid-ciphertext', ret=rc, outlen=olen,
                       ct=ct.hex(), **d)
             ctx.nontrivial('decrypt', ke, ident, ct)
             if n % 16 == 0 and got is not None:
-                ctx.check(R.decrypt(de, ident, got[0], got[1], got[2], mac='hmac') == msg or
-                          R.decrypt(de, ident, got[0], got[1], got[2]) == msg, 'encrypt:model-cannot-decrypt', ct=ct.hex(), **d)
+                chk(ctx, R.decrypt(de, ident, got[0], got[1], got[2], mac='hmac') == msg or
+                          R.decrypt(de, ident, got[0], got[1], got[2]) == msg, 'encrypt:ciphertext-invalid-per-model', ct=ct.hex(), **d)
             # another identity's key / another identity string must not open it
             for k_, i_, why in ((key2, id2, 'other-key+other-id'), (key2, ident, 'other-key'), (key, id2, 'other-id')):
                 rc, pt, olen = lib_decrypt(ctx, k_, i_, ct, 255)
-                ctx.check(rc != 1, 'decrypt:accepts-other-identity', ret=rc, why=why, other=id2[:48].hex(), ct=ct.hex(), **d)
+                chk(ctx, rc != 1, 'decrypt:accepts-other-identity', ret=rc, why=why, other=id2[:48].hex(), ct=ct.hex(), **d)
                 ctx.nontrivial('decrypt-other', ke, ident, id2, ct, why)
             if flip_target is None or len(ct) < len(flip_target[2]):
                 flip_target = (ident, msg, ct, ii)
@@ -1704,11 +1750,16 @@ def u_enc(ctx, u):
             ctx.begin(['kem', klen, hx(r)])
             rc = lib.sm9_kem_encrypt(M.buf, ib, idlen, klen, kb, C)
             k_model, c_model = R.kem_encap(M.ppube, ident, r, klen, g=M.g)
-            ctx.check(rc == 1 and kb.raw() == k_model and dec_g1(C.raw()) == c_model, 'kem_encrypt:differs-from-model',
-                      ret=rc, klen=klen, r=hx(r), ke=hx(ke), id=ident[:48].hex())
+            cl = dec_g1(C.raw())
+            if not (rc == 1 and kb.raw() == k_model and cl == c_model):
+                k_model = R.kem_decap(de, ident, cl, klen) if (rc == 1 and cl is not None) else None
+                chk(ctx, k_model is not None and kb.raw() == k_model, 'kem_encrypt:key-invalid-per-model', ret=rc, klen=klen,
+                    r=hx(r), ke=hx(ke), id=ident[:48].hex())
+            else:
+                ctx.ok()
             kb2 = ctx.buf(klen)
             rc = lib.sm9_kem_decrypt(key, ib, idlen, C, klen, kb2)
-            ctx.check(rc == 1 and kb2.raw() == k_model, 'kem_decrypt:wrong-key', ret=rc, klen=klen, r=hx(r), ke=hx(ke))
+            chk(ctx, rc == 1 and kb2.raw() == k_model, 'kem_decrypt:wrong-key', ret=rc, klen=klen, r=hx(r), ke=hx(ke))
             ctx.nontrivial('kem', ke, ident, r, klen)
             for x in (kb, C, kb2):
                 x.free()
@@ -1720,17 +1771,22 @@ def u_enc(ctx, u):
             ctx.begin(['do_encrypt', n, hx(r)])
             rc = lib.sm9_do_encrypt(M.buf, ib, idlen, mb, n, C1, c2b, c3b)
             c1, c2, c3 = R.encrypt(M.ppube, ident, msg, r, mac='hmac', g=M.g)
-            ctx.check(rc == 1 and dec_g1(C1.raw()) == c1 and c2b.raw(n) == c2, 'do_encrypt:differs-from-model', ret=rc, len=n,
-                      r=hx(r), ke=hx(ke))
+            cl = dec_g1(C1.raw())
+            if rc == 1 and cl == c1 and c2b.raw(n) == c2:
+                ctx.ok()
+            else:
+                chk(ctx, rc == 1 and cl is not None and (R.decrypt(de, ident, cl, c2b.raw(n), c3b.raw(), mac='hmac') == msg or
+                                                       R.decrypt(de, ident, cl, c2b.raw(n), c3b.raw()) == msg),
+                    'do_encrypt:ciphertext-invalid-per-model', ret=rc, len=n, r=hx(r), ke=hx(ke))
             ob = ctx.buf(n)
             rc = lib.sm9_do_decrypt(key, ib, idlen, C1, c2b, n, c3b, ob)
-            ctx.check(rc == 1 and ob.raw(n) == msg, 'do_decrypt:wrong-result-for-valid-ciphertext', ret=rc, len=n, r=hx(r))
+            chk(ctx, rc == 1 and ob.raw(n) == msg, 'do_decrypt:wrong-result-for-valid-ciphertext', ret=rc, len=n, r=hx(r))
             if n:
                 t = bytearray(c3b.raw())
                 t[rng.randrange(32)] ^= 1 << rng.randrange(8)
                 tb = ctx.inbuf(bytes(t))
                 rc = lib.sm9_do_decrypt(key, ib, idlen, C1, c2b, n, tb, ob)
-                ctx.check(rc != 1, 'do_decrypt:accepts-altered-tag', ret=rc, len=n)
+                chk(ctx, rc != 1, 'do_decrypt:accepts-altered-tag', ret=rc, len=n)
                 tb.free()
             ctx.nontrivial('do_encrypt', ke, ident, msg, r)
             for x in (mb, C1, c2b, c3b, ob):
@@ -1748,7 +1804,7 @@ def u_enc(ctx, u):
                 c2_ = bytearray(ct)
                 c2_[bit >> 3] ^= 0x80 >> (bit & 7)
                 rc, pt, olen = lib_decrypt(ctx, key, fid, bytes(c2_), 255)
-                ctx.check(rc != 1, 'decrypt:accepts-altered-ciphertext', ret=rc, bit=bit, ct=ct.hex(), ke=hx(ke),
+                chk(ctx, rc != 1, 'decrypt:accepts-altered-ciphertext', ret=rc, bit=bit, ct=ct.hex(), ke=hx(ke),
                           id=fid[:48].hex(), plaintext_len=len(fmsg))
                 ctx.nontrivial('decrypt-flip', ct, bit)
             ctx.stat('ciphertext_bits_flipped', len(sel))
@@ -1789,13 +1845,13 @@ def u_exch(ctx, u):
         logB = entropy_log(ctx)
         ctx.begin(['exch_step_2A', d])
         r3 = lib.sm9_exch_step_2A(M.buf, ia, len(idA), ib, len(idB), keyA, rA, RA, RB, skA, klen)
-        if not ctx.check(r1 == 1 and r2 == 1 and r3 == 1, 'exch:step-failed', rets=[r1, r2, r3], **d):
+        if not chk(ctx, r1 == 1 and r2 == 1 and r3 == 1, 'exch:step-failed', rets=[r1, r2, r3], **d):
             continue
-        ctx.check(skA.raw() == skB.raw(), 'exch:keys-differ', skA=skA.raw().hex(), skB=skB.raw().hex(), rA=hx(ra), **d)
+        chk(ctx, skA.raw() == skB.raw(), 'exch:keys-differ', skA=skA.raw().hex(), skB=skB.raw().hex(), rA=hx(ra), **d)
         pRA, pRB = dec_g1(RA.raw()), dec_g1(RB.raw())
-        ctx.check(pRA == R.exch_R(M.ppube, idB, ra), 'exch:RA-differs-from-model', rA=hx(ra), **d)
+        chk(ctx, pRA == R.exch_R(M.ppube, idB, ra), 'exch:RA-differs-from-model', rA=hx(ra), **d)
         ska, s1, sa = R.exch_A(M.ppube, idA, idB, deA, pRA, ra, pRB, klen)
-        ctx.check(skA.raw() == ska, 'exch:key-differs-from-model', skA=skA.raw().hex(), want=ska.hex(), rA=hx(ra), **d)
+        chk(ctx, skA.raw() == ska, 'exch:key-differs-from-model', skA=skA.raw().hex(), want=ska.hex(), rA=hx(ra), **d)
         ctx.nontrivial('exch', M.ke, idA, idB, ra, klen)
         # which rB did the responder use?  (observation for C18, not judged here)
         cands = [('entropy', v) for v in (UL(logB, i) for i in range(0, max(0, len(logB) - 31), 32))] + \
@@ -1805,7 +1861,7 @@ def u_exch(ctx, u):
             if 0 < v < N and R.exch_R(M.ppube, idA, v) == pRB:
                 rb_src = src
                 RBm, skb, sb, s2 = R.exch_B(M.ppube, idA, idB, deB, pRA, v, klen)
-                ctx.check(skB.raw() == skb and s1 == sb and s2 == sa, 'exch:responder-key-differs-from-model', rB=hx(v), **d)
+                chk(ctx, skB.raw() == skb and s1 == sb and s2 == sa, 'exch:responder-key-differs-from-model', rB=hx(v), **d)
                 break
         ctx.stat('info_exch_rB_source_' + str(rb_src))
         draws_a = [UL(logA, i) for i in range(0, max(0, len(logA) - 31), 32)]
@@ -1857,25 +1913,25 @@ def u_keyder(ctx, u):
         raw = obj.raw()
         if rc == 1 and rc2 != 1 and ks < (1 << 248):
             # to_der writes a minimal INTEGER, from_der insists on 32 content bytes
-            ctx.check(False, 'sign_master_key_der:own-encoding-rejected:key-below-2^248', rets=[rc, rc2], der=der.hex(), **d)
+            chk(ctx, False, 'sign_master_key_der:own-encoding-rejected:key-below-2^248', rets=[rc, rc2], der=der.hex(), **d)
         else:
-            ctx.check(rc == 1 and rc2 == 1 and left == 0 and UL(raw, L['off_SM9_SIGN_MASTER_KEY_ks']) == ks and
+            chk(ctx, rc == 1 and rc2 == 1 and left == 0 and UL(raw, L['off_SM9_SIGN_MASTER_KEY_ks']) == ks and
                       dec_g2(raw[:192]) == M.ppubs, 'sign_master_key_der:round-trip', rets=[rc, rc2], der=der.hex(), **d)
-        ctx.check(R.g2_bytes(M.ppubs) in der, 'sign_master_key_der:public-key-octets', der=der.hex(), **d)
+        chk(ctx, R.g2_bytes(M.ppubs) in der, 'sign_master_key_der:public-key-octets', der=der.hex(), **d)
         obj.free()
         rc, der = to_der(ctx, lib.sm9_sign_master_public_key_to_der, M.buf, L.get('SM9_SIGN_MASTER_PUBLIC_KEY_SIZE', 136))
         rc2, obj, left = from_der(ctx, lib.sm9_sign_master_public_key_from_der, L['sizeof_SM9_SIGN_MASTER_KEY'], der)
-        ctx.check(rc == 1 and rc2 == 1 and left == 0 and dec_g2(obj.raw()[:192]) == M.ppubs and R.g2_bytes(M.ppubs) in der,
+        chk(ctx, rc == 1 and rc2 == 1 and left == 0 and dec_g2(obj.raw()[:192]) == M.ppubs and R.g2_bytes(M.ppubs) in der,
                   'sign_master_public_key_der:round-trip', rets=[rc, rc2], der=der.hex(), **d)
         # a verifier that only holds the imported public key
         rcs, sig, _ = lib_sign(ctx, key, b'message', pick_scalar(rng, N - 2), rng)
-        ctx.check(rcs == 1 and lib_verify(ctx, obj, ident, b'message', sig, rng) == 1, 'verify:imported-public-key', **d)
+        chk(ctx, rcs == 1 and lib_verify(ctx, obj, ident, b'message', sig, rng) == 1, 'verify:imported-public-key', **d)
         obj.free()
         rc, der = to_der(ctx, lib.sm9_sign_key_to_der, key, L.get('SM9_SIGN_KEY_SIZE', 204))
         rc2, obj, left = from_der(ctx, lib.sm9_sign_key_from_der, L['sizeof_SM9_SIGN_KEY'], der)
         raw = obj.raw()
         o1, o2 = L['off_SM9_SIGN_KEY_ds'], L['off_SM9_SIGN_KEY_Ppubs']
-        ctx.check(rc == 1 and rc2 == 1 and left == 0 and dec_g1(raw[o1:o1 + 96]) == ds and dec_g2(raw[o2:o2 + 192]) == M.ppubs
+        chk(ctx, rc == 1 and rc2 == 1 and left == 0 and dec_g1(raw[o1:o1 + 96]) == ds and dec_g2(raw[o2:o2 + 192]) == M.ppubs
                   and R.g1_bytes(ds) in der, 'sign_key_der:round-trip', rets=[rc, rc2], der=der.hex(), **d)
         obj.free()
         ctx.nontrivial('keyder-sign', ks, ident)
@@ -1887,21 +1943,21 @@ def u_keyder(ctx, u):
         rc2, obj, left = from_der(ctx, lib.sm9_enc_master_key_from_der, L['sizeof_SM9_ENC_MASTER_KEY'], der)
         raw = obj.raw()
         if rc == 1 and rc2 != 1 and ks < (1 << 248):
-            ctx.check(False, 'enc_master_key_der:own-encoding-rejected:key-below-2^248', rets=[rc, rc2], der=der.hex(), **d)
+            chk(ctx, False, 'enc_master_key_der:own-encoding-rejected:key-below-2^248', rets=[rc, rc2], der=der.hex(), **d)
         else:
-            ctx.check(rc == 1 and rc2 == 1 and left == 0 and UL(raw, L['off_SM9_ENC_MASTER_KEY_ke']) == ks and
+            chk(ctx, rc == 1 and rc2 == 1 and left == 0 and UL(raw, L['off_SM9_ENC_MASTER_KEY_ke']) == ks and
                       dec_g1(raw[:96]) == E.ppube, 'enc_master_key_der:round-trip', rets=[rc, rc2], der=der.hex(), **d)
         obj.free()
         rc, der = to_der(ctx, lib.sm9_enc_master_public_key_to_der, E.buf, L.get('SM9_ENC_MASTER_PUBLIC_KEY_SIZE', 70))
         rc2, obj, left = from_der(ctx, lib.sm9_enc_master_public_key_from_der, L['sizeof_SM9_ENC_MASTER_KEY'], der)
-        ctx.check(rc == 1 and rc2 == 1 and left == 0 and dec_g1(obj.raw()[:96]) == E.ppube and R.g1_bytes(E.ppube) in der,
+        chk(ctx, rc == 1 and rc2 == 1 and left == 0 and dec_g1(obj.raw()[:96]) == E.ppube and R.g1_bytes(E.ppube) in der,
                   'enc_master_public_key_der:round-trip', rets=[rc, rc2], der=der.hex(), **d)
         obj.free()
         rc, der = to_der(ctx, lib.sm9_enc_key_to_der, ekey, L.get('SM9_ENC_KEY_SIZE', 204))
         rc2, obj, left = from_der(ctx, lib.sm9_enc_key_from_der, L['sizeof_SM9_ENC_KEY'], der)
         raw = obj.raw()
         o1, o2 = L['off_SM9_ENC_KEY_de'], L['off_SM9_ENC_KEY_Ppube']
-        ctx.check(rc == 1 and rc2 == 1 and left == 0 and dec_g2(raw[o1:o1 + 192]) == de and dec_g1(raw[o2:o2 + 96]) == E.ppube
+        chk(ctx, rc == 1 and rc2 == 1 and left == 0 and dec_g2(raw[o1:o1 + 192]) == de and dec_g1(raw[o2:o2 + 96]) == E.ppube
                   and R.g2_bytes(de) in der, 'enc_key_der:round-trip', rets=[rc, rc2], der=der.hex(), **d)
         obj.free()
         ctx.nontrivial('keyder-enc', ks, ident)
